@@ -1,4 +1,5 @@
 import PortusModel.Props.C13
+import PortusModel.Props.Tables
 #print axioms Portus.C13.builtin_abi
 #print axioms Portus.C13.builtin_only
 #print axioms Portus.C13.abiTable_positions
@@ -12,3 +13,6 @@ import PortusModel.Props.C13
 #print axioms Portus.C13.compile_scope_slots
 #print axioms Portus.C13.instrs_use_scope
 #print axioms Portus.C13.check_model
+#print axioms Portus.Tables.src_builtins_eq
+#print axioms Portus.Tables.primitives_shared_with_libccp
+#print axioms Portus.Tables.implicits_shared_with_libccp
